@@ -55,22 +55,18 @@ Theorem C07_reads_subset_writes : forall t f, In (t, f) transformer_table ->
 Proof. exact reads_subset_thm. Qed.
 Print Assumptions C07_reads_subset_writes.
 
-(* sign guards `if p < 0: raise ValueError`.  The full statement is FALSE: Model/Circuit.v says [guarded KPerI = ["G";"w"]]
-   (like periodic_voltage_source) while components.periodic_current_source has no guard at all. *)
+(* sign guards `if p < 0: raise ValueError`: every constructor guards exactly the parameters the model lists (before the
+   repair of components.periodic_current_source this statement was refuted for that kind). *)
 Definition C07_guards_stmt (k : ckind) : Prop :=
   exists c, find (fun c => label_eqb (c_type c) (kind_name k)) component_ctors = Some c
             /\ (forall x, In x (c_guards c) <-> In x (guarded k)).
-Definition C07_guards_full : Prop := forall k, C07_guards_stmt k.
-Theorem C07_guards_partial : forall k, k <> KPerI -> C07_guards_stmt k.
-Proof. exact guards_partial_thm. Qed.
-Print Assumptions C07_guards_partial.
-Theorem C07_guards_periodic_current_source_differs :
-  exists c, find (fun c => label_eqb (c_type c) (kind_name KPerI)) component_ctors = Some c
-            /\ c_guards c = [] /\ guarded KPerI = [lbl "G"; lbl "w"].
-Proof. exact guards_KPerI_thm. Qed.
-Theorem C07_guards_full_is_false : ~ C07_guards_full.
-Proof. exact guards_full_fails. Qed.
-Print Assumptions C07_guards_full_is_false.
+Theorem C07_guards : forall k, C07_guards_stmt k.
+Proof. exact guards_full_thm. Qed.
+Print Assumptions C07_guards.
+Theorem C07_wavetype_checked : forall k, exists c, find (fun c => label_eqb (c_type c) (kind_name k)) component_ctors = Some c /\
+  (c_checks_wavetype c = true <-> (k = KPerV \/ k = KPerI)).
+Proof. exact wave_checked_thm. Qed.
+Print Assumptions C07_wavetype_checked.
 
 (* ================= B. the translation itself (generic formally real field R; complex numbers Cx R) ================= *)
 
